@@ -143,6 +143,29 @@ func rulesC19(cx *Ctx) []Obligation {
 					continue
 				}
 				merged := ""
+				// the parsed value must be taken from the call's result: on failure the result is nil while the
+				// receiver holds an unspecified partial value
+				recvV := c.Common().Args[0]
+				if refs := recvV.Referrers(); refs != nil {
+					for _, ref := range *refs {
+						if ref == ssa.Instruction(c) {
+							continue
+						}
+						if _, isDbg := ref.(*ssa.DebugRef); isDbg {
+							continue
+						}
+						merged = "the receiver of SetString is used (" + ref.String() + ") instead of its result: after a failed parse it holds a partial value, not nil"
+					}
+				}
+				usedResult := false
+				for _, ref := range *c.Referrers() {
+					if ex, ok := ref.(*ssa.Extract); ok && ex.Index == 0 && ex.Referrers() != nil && len(*ex.Referrers()) > 0 {
+						usedResult = true
+					}
+				}
+				if !usedResult && merged == "" {
+					merged = "the result of SetString is discarded"
+				}
 				for _, ref := range *c.Referrers() {
 					ex, ok := ref.(*ssa.Extract)
 					if !ok || ex.Index != 0 {
@@ -181,6 +204,7 @@ func rulesC19(cx *Ctx) []Obligation {
 		obs = append(obs, undecided("C19/O19.3/floor", "the SetString call sites are found", fmt.Sprintf("%d sites", ns)))
 	}
 	obs = append(obs, ruleCopyMap(cx)...)
+	obs = append(obs, ruleConfigCopy(cx)...)
 	obs = append(obs, ruleIndexDiscipline(cx)...)
 	return obs
 }
@@ -392,4 +416,95 @@ func boundIsFullLen(v ssa.Value, depth int) bool {
 		return boundIsFullLen(x.X, depth+1)
 	}
 	return false
+}
+
+// O19.4c configuration copy: every field of the decoded CommonCircuitData is loaded from the raw field of the same
+// position (markers left by the loads from the raw decoder struct).
+func ruleConfigCopy(cx *Ctx) []Obligation {
+	var obs []Obligation
+	P := cx.P
+	r := cx.Entry("types", "ReadCommonCircuitData")
+	if r == nil {
+		return []Obligation{undecided("C19/O19.4/config/anchor", "types.ReadCommonCircuitData exists", "not found")}
+	}
+	// the raw decoder cell: the local of type CommonCircuitDataRaw
+	rawTag := ""
+	for _, b := range r.Entry.Blocks {
+		for _, ins := range b.Instrs {
+			if a, ok := ins.(*ssa.Alloc); ok {
+				if pt, ok := a.Type().(*types.Pointer); ok && typeIs(pt.Elem(), "types.CommonCircuitDataRaw") {
+					rawTag = "c:" + r.Entry.Name() + "." + a.Name()
+				}
+			}
+		}
+	}
+	if rawTag == "" {
+		return []Obligation{undecided("C19/O19.4/config/anchor", "the raw decoder struct of ReadCommonCircuitData is found", "no local of type CommonCircuitDataRaw")}
+	}
+	same := func(prefix string, names ...string) map[string]string {
+		m := map[string]string{}
+		for _, n := range names {
+			m[prefix+n] = prefix + n
+		}
+		return m
+	}
+	want := map[string]string{}
+	for k, v := range same(".Config.", "NumWires", "NumRoutedWires", "NumConstants", "UseBaseArithmeticGate", "SecurityBits", "NumChallenges", "ZeroKnowledge", "MaxQuotientDegreeFactor") {
+		want[k] = v
+	}
+	for k, v := range same(".Config.FriConfig.", "RateBits", "CapHeight", "ProofOfWorkBits", "NumQueryRounds") {
+		want[k] = v
+	}
+	for k, v := range same(".FriParams.Config.", "RateBits", "CapHeight", "ProofOfWorkBits", "NumQueryRounds") {
+		want[k] = v
+	}
+	for k, v := range same(".", "QuotientDegreeFactor", "NumGateConstraints", "NumConstants", "NumPublicInputs", "KIs", "NumPartialProducts") {
+		want[k] = v
+	}
+	want[".FriParams.DegreeBits"] = ".FriParams.DegreeBits"
+	want[".DegreeBits"] = ".FriParams.DegreeBits"
+	want[".FriParams.ReductionArityBits"] = ".FriParams.ReductionArityBits"
+	want[".GateIds"] = ".Gates"
+	want[".SelectorsInfo.selectorIndices"] = ".SelectorsInfo.SelectorIndices"
+	var keys []string
+	for k := range want {
+		keys = append(keys, k)
+	}
+	sort.Strings(keys)
+	ret := r.Res.Ret
+	for _, tgt := range keys {
+		key := "C19/O19.4/config" + tgt
+		desc := "the configuration field is copied from the raw document field at the corresponding position and from no other"
+		v := ret
+		for _, s := range splitSel(tgt) {
+			v = r.In.Narrow(v, s)
+		}
+		if v == nil {
+			obs = append(obs, bad(key, desc, "the decoded configuration has no value for this field", P.FnName(r.Entry)))
+			continue
+		}
+		var srcs []string
+		for _, f := range v.From {
+			if strings.HasPrefix(f, rawTag+".") || f == rawTag {
+				srcs = append(srcs, strings.TrimPrefix(f, rawTag))
+			}
+		}
+		// slices stored as local-cell pointers: look at what the pointer was loaded from
+		if len(srcs) == 0 && v.Cell != nil {
+			for _, f := range r.pointee(v).From {
+				if strings.HasPrefix(f, rawTag+".") {
+					srcs = append(srcs, strings.TrimPrefix(f, rawTag))
+				}
+			}
+		}
+		switch {
+		case len(srcs) == 1 && srcs[0] == want[tgt]:
+			obs = append(obs, good(key, desc, "raw"+want[tgt]+" → "+tgt))
+		case len(srcs) == 0:
+			obs = append(obs, bad(key, desc, "the value is not loaded from the raw document (expected raw"+want[tgt]+"): "+v.short(1), P.FnName(r.Entry)))
+		default:
+			obs = append(obs, bad(key, desc, fmt.Sprintf("copied from raw%v, expected raw%s", srcs, want[tgt]), P.FnName(r.Entry)))
+		}
+	}
+	return obs
 }
